@@ -102,6 +102,7 @@ def raw_cases(rng, n):
                 if len(again) == 2 or True:
                     fixed.append(("un", ("slice", w[0], w[1]), mp.DEFAULT, ("un", ("sort", again), mp.DEFAULT, first)))
     fixed += sp.fixed_window_cases()
+    fixed += sp.sorted_then_sequences(False)
     n += len(fixed)
     for k in range(n):
         p, cols, ordered = sp.gen_sqlprog(rng, rng.choice([1, 2, 3, 4, 5]))
